@@ -6,11 +6,11 @@ def run_groups(run_, ctx, items, config="A"):
     """items: list of (rule, group, only-predicate-or-None, what)"""
     F = ctx.facts(config)
     pc = F.crate("postcard")
-    exp = glue.load(config)
+    exp = glue.load2(config)
     if config not in run_.configs:
         run_.configs.append(config)
         run_.bodies += len(pc.fns)
     total = 0
     for rule, group, only, what in items:
-        total += glue.check_group(run_, rule, F, pc, group, exp, only=only, what=what)
+        total += glue.check_group2(run_, rule, F, pc, group, exp, only=only, what=what)
     return total
